@@ -165,3 +165,13 @@ claim(
     TB, "global-state inventory from type-checked statics/impls, call-graph reachability of environment mutation, lock-order graph with closure-scoped lock regions",
     "DESIGN.md §2 C19",
 )
+claim(
+    "C16", "other",
+    "Narrow structural clauses: every site of the MIR generator that maps a record field name to a slot index does so on the "
+    "canonicalised record type (reads, writes, addresses and pattern destructuring agree, so field order in an agreeing annotation "
+    "cannot change which slot is accessed); resolution/desugaring passes read every expression-bearing payload field of every Expr "
+    "form they match; generated labels inventoried. Whitespace/comment/parenthesis invariance (chumsky tokenizer, parser on values) "
+    "and inference under annotations are not decided.",
+    TB, "sibling agreement of slot-lookup sites (per-arm callee sets), payload-field use analysis per match arm",
+    "DESIGN.md §2 C16",
+)
